@@ -71,6 +71,33 @@ Catalogue == <<
   L("mono_AU2", Mono(Bi("AU", S, T), Bi("AU", S, TR)), Fa),
   L("mono_EW1", Mono(Bi("EW", S, T), Bi("EW", SR, T)), Fa),
   L("mono_AW2", Mono(Bi("AW", S, T), Bi("AW", S, TR)), Fa),
+  L("mono_EW2", Mono(Bi("EW", S, T), Bi("EW", S, TR)), Fa),
+  L("mono_AW1", Mono(Bi("AW", S, T), Bi("AW", SR, T)), Fa),
+  \* distribution, idempotence, absorption, degenerate arguments
+  L("dist_EX_or",  Un("EX", Or(S, T)),  Or(Un("EX", S), Un("EX", T))),
+  L("dist_AX_and", Un("AX", And(S, T)), And(Un("AX", S), Un("AX", T))),
+  L("dist_EF_or",  Un("EF", Or(S, T)),  Or(Un("EF", S), Un("EF", T))),
+  L("dist_AG_and", Un("AG", And(S, T)), And(Un("AG", S), Un("AG", T))),
+  L("idem_EF", Un("EF", Un("EF", S)), Un("EF", S)),
+  L("idem_AG", Un("AG", Un("AG", S)), Un("AG", S)),
+  L("idem_EG", Un("EG", Un("EG", S)), Un("EG", S)),
+  L("idem_AF", Un("AF", Un("AF", S)), Un("AF", S)),
+  L("absorb_EU", Bi("EU", S, Bi("EU", S, T)), Bi("EU", S, T)),
+  L("absorb_AU", Bi("AU", S, Bi("AU", S, T)), Bi("AU", S, T)),
+  L("EU_to_false", Bi("EU", S, Fa), Fa),
+  L("AU_to_false", Bi("AU", S, Fa), Fa),
+  L("EU_from_false", Bi("EU", Fa, T), T),
+  L("AU_from_false", Bi("AU", Fa, T), T),
+  L("EX_true", Un("EX", Tr), Tr),          \* total structures: steady states count as self-loops
+  L("AX_false", Un("AX", Fa), Fa),
+  L("EW_to_true", Bi("EW", S, Tr), Tr),
+  L("AW_same", Bi("AW", S, S), S),
+  L("AG_as_AW", Un("AG", S), Bi("AW", S, Fa)),
+  L("EG_as_EW", Un("EG", S), Bi("EW", S, Fa)),
+  L("AF_implies_EF", Mono(Un("AF", S), Un("EF", S)), Fa),
+  L("AG_implies_EG", Mono(Un("AG", S), Un("EG", S)), Fa),
+  L("AU_implies_EU", Mono(Bi("AU", S, T), Bi("EU", S, T)), Fa),
+  L("U_implies_W", Mono(Bi("EU", S, T), Bi("EW", S, T)), Fa),
   \* EX / AX treat steady states as self-loops
   L("steady_EX", And(Un("EX", S), SteadyF), And(S, SteadyF)),
   L("steady_AX", And(Un("AX", S), SteadyF), And(S, SteadyF)),
@@ -80,6 +107,18 @@ Catalogue == <<
                   Hy("exists", "x", "", Hy("jump", "x", "", And(S, Un("AX", T))))),
   L("dom_forall", Hy("forall", "x", "S", Hy("jump", "x", "", Un("EF", T))),
                   Hy("forall", "x", "", Hy("jump", "x", "", Bi("imp", S, Un("EF", T))))),
+  \* hybrid operators: bind / jump / quantifiers against their definitions
+  L("bind_jump", Hy("bind", "x", "", Hy("jump", "x", "", S)), S),
+  L("exists_var", Hy("exists", "x", "", And(Var("x"), S)), S),
+  L("forall_imp", Hy("forall", "x", "", Bi("imp", Var("x"), S)), S),
+  L("bind_as_exists", Hy("bind", "x", "", Un("EF", And(Var("x"), T))),
+                      Hy("exists", "x", "", And(Var("x"), Un("EF", And(Var("x"), T))))),
+  L("dual_forall", Hy("forall", "x", "", Hy("jump", "x", "", Un("AX", T))),
+                   Not(Hy("exists", "x", "", Not(Hy("jump", "x", "", Un("AX", T)))))),
+  L("dom_bind_leaf", Hy("bind", "x", "S", T), And(S, T)),
+  L("dom_exists_var", Hy("exists", "x", "S", Var("x")), S),
+  L("dom_exists_and", Hy("exists", "x", "S", And(Var("x"), T)), And(S, T)),
+  L("dom_forall_imp", Hy("forall", "x", "S", Bi("imp", Var("x"), T)), Or(Not(S), T)),
   \* the optimised patterns against logically identical formulae
   L("pat_attractor", Hy("bind", "x", "", Un("AG", Un("EF", Var("x")))),
                      Hy("bind", "x", "", Un("AG", Un("EF", And(Var("x"), Var("x")))))),
